@@ -36,6 +36,7 @@ HAND = [
     "local f(parameterNumberOne, parameterNumberTwo=2, parameterNumberThree=3, parameterNumberFour=4, parameterNumberFive=5) = 1; f(1)",
     "[[1000001, 1000002, 1000003, 1000004, 1000005, 1000006, 1000007, 1000008, 1000009, 1000010, 1000011, 1000012, 1000013]]",
     "local x = {\n  a: 1,\n\n  b: 2,\n};\nx", "[\n  1,\n  2,\n]", "{\n  a: 1 }", "[1,\n 2]", "{ a: 1,\n b: 2 }", "f(\n 1, 2)", "local a = 1;\n\n\nlocal b = 2;\n\na + b",
+    "/**/ 1", "/* */ 1", "/***/ 1", "/****/ 1", "/* a **/ 1", "/** a **/ 1", "[1, /**/ 2]", "1 /**/", "{ /**/ }", "[ /**/ ]", "f(/**/)", "//\n1", "#\n1", "/*/ */ 1",
     "f(/* c */)", "f(\n  // c\n)", "{[k]: 1 for k in x if k for j in y}", "\"multi\nline\n\ttab\"", "[@'a\nb', 1]", "1 # tab\there\n",
     "-(1)", "- -1", "!(!true)", "(1)", "((1 + 2)) * 3", "1 - (2 - 3)", "(1 + 2) + 3", "a[1]", "a['b']", "a.b", "a[b].c", "x { a: 1 }.a", "(x) { a: 1 }",
     "'é€😀'", "{é: 1}" if False else "{'é': 1}", "# leading comment\n1", "1 # trailing", "/* block */ 1", "1 /* block */", "// only\n// comments\n1",
@@ -44,7 +45,8 @@ HAND = [
     "/*\n * gutter\n * comment\n */\n1", "/**\n * foo\n *\n * bar\n */\n1", "/*\n * a\n *\n * b\n */\n1", "{\n  /**\n   * foo\n   *\n   * bar\n   */\n  a: 1,\n}",
     "/* a\n\n   b */ 1", "/*\n  a\n\n    b\n*/ 1", "/* one\n   two */ 1", "/*\n\ta\n\t\tb\n*/ 1", "|||\n  a\n\n\n|||", "|||\n  a\n\n|||", "{a: |||\n  x\n\n\n|||}", "/**\n * doc comment\n */\n{a: 1}", "1 + // mid-expression\n2", "[x // in comp\n for x in [1]]", "if true // after cond\n then 1 else 2",
 ]
-COMMENT_SEPS = [" /* c{n} */ ", " // c{n}\n", " # c{n}\n", "\n/* c{n}\n   more{n} */\n", " "]
+COMMENT_SEPS = [" /* c{n} */ ", " // c{n}\n", " # c{n}\n", "\n/* c{n}\n   more{n} */\n", " ", " /**/ ", " /* c{n} **/ "]
+ONE_KINDS = [0, 1, 2, 3, 5, 6]
 
 
 def sugar_norm(x):
@@ -74,6 +76,8 @@ def norm_comment(c):
     t = c["t"]
     if c["k"] == "MULTI_LINE_COMMENT":
         body = t[2:-2] if t.endswith("*/") and len(t) >= 4 else t[2:]
+        if body.startswith("*"):
+            body = body[1:]         # `/**` is the marker of a documentation comment, not text
         lines = [re.sub(r"^\s*\*?\s?", "", l).strip() for l in body.split("\n")]
     else:
         lines = [re.sub(r"^(//|#)\s?", "", t.strip()).strip()]
@@ -88,9 +92,14 @@ def decorate(tokens, rng):
     """comments at token boundaries: numbered so that loss, duplication and reordering are visible"""
     parts = []
     n = 0
+    empty_used = False
     for i, t in enumerate(tokens):
         if i:
             s = rng.choice(COMMENT_SEPS)
+            if s == " /**/ ":
+                if empty_used:          # comments are told apart by their text: at most one without text
+                    s = " "
+                empty_used = True
             if "{n}" in s:
                 n += 1
             parts.append(s.replace("{n}", str(n)))
@@ -147,7 +156,7 @@ def with_comments(progs, thorough, rng):
             continue
         if tag == "hand" or (thorough and len(toks) <= 14):
             for pos in range(len(toks) - 1):
-                for kind in range(4):
+                for kind in ONE_KINDS:
                     out.append((tag + ".c1", decorate_one(toks, pos, kind)))
         if tag != "grammar" or rng.random() < 0.3:
             out.append((tag + ".cN", decorate(toks, rng)))
